@@ -252,6 +252,69 @@ func init() {
 	def("sort.Sort", modelEffect{allocates: true, nonDoc: true}, sortModel)
 	def("sort.Strings", modelEffect{allocates: true, nonDoc: true}, sortModel)
 
+	// sort.Slice / sort.SliceStable(x, less) with a slice of non-document elements and a less function that
+	// writes nothing (checked syntactically): the elements of x are permuted, nothing else changes. The
+	// permutation is given as a pair of mutually inverse functions on [0, len). Nothing is said about the
+	// order the elements end up in (that would need the body of less). Anything else: everything is havocked.
+	sliceSortModel := func(g *gen, st *state, c *ssa.CallCommon, a []string, in ssa.Instruction) []string {
+		var sl *types.Slice
+		mi, ok := c.Args[0].(*ssa.MakeInterface)
+		if ok {
+			sl, ok = mi.X.Type().Underlying().(*types.Slice)
+		}
+		if ok {
+			ok = pureLess(c.Args[1]) && !g.isDocHeap(elemHeap(sl.Elem()))
+		}
+		if !ok {
+			g.note("sort.Slice*: argument not a slice of non-document elements or less not syntactically pure: everything havocked")
+			g.newEpoch(st, func(name, r string) string {
+				if r == "" {
+					return "false"
+				}
+				return g.privateKeep(name, r)
+			}, true)
+			for al := range st.cells {
+				if g.escaped[al] {
+					st.cells[al] = g.newConst("cell."+sanitize(al.Comment), g.sorts.sortOf(deref(al.Type())))
+				}
+			}
+			return nil
+		}
+		s := g.val(st, mi.X)
+		base, off, n := app("s.base", s), app("s.off", s), app("s.len", s)
+		if g.zeroOff[mi.X] {
+			off = "0"
+		}
+		es := g.sorts.sortOf(sl.Elem())
+		oldArr, hname := g.elemArr(st, sl.Elem())
+		oldRow := g.define("sortrow", "(Array Int "+es+")", app("select", oldArr, base))
+		saved := g.captured
+		g.captured = nil // less writes nothing, so the variables it captures stay as they are
+		g.newEpoch(st, func(name, r string) string {
+			if name == hname {
+				if r == "" {
+					return "false"
+				}
+				return sNot(sEq(r, base))
+			}
+			return "true"
+		}, false)
+		g.captured = saved
+		newArr, _ := g.elemArr(st, sl.Elem())
+		newRow := g.define("sortedrow", "(Array Int "+es+")", app("select", newArr, base))
+		perm, inv := g.fresh("perm"), g.fresh("inv")
+		g.declareFun(perm, "(Int) Int")
+		g.declareFun(inv, "(Int) Int")
+		in01 := func(x string) string { return sAnd(app("<=", "0", x), app("<", x, n)) }
+		g.assume(fmt.Sprintf("(forall ((i Int)) (! %s :pattern ((%s i))))", sImp(in01("i"), sAnd(in01(app(perm, "i")), sEq(app(inv, app(perm, "i")), "i"))), perm))
+		g.assume(fmt.Sprintf("(forall ((j Int)) (! %s :pattern ((%s j))))", sImp(in01("j"), sAnd(in01(app(inv, "j")), sEq(app(perm, app(inv, "j")), "j"))), inv))
+		g.assume(fmt.Sprintf("(forall ((i Int)) (! %s :pattern (%s)))", sImp(in01("i"), sEq(app("select", newRow, addOff(off, "i")), app("select", oldRow, addOff(off, app(perm, "i"))))), app("select", newRow, addOff(off, "i"))))
+		g.assume(fmt.Sprintf("(forall ((k Int)) (! %s :pattern (%s)))", sImp(sOr(app("<", "k", addOff(off, "0")), app(">=", "k", addOff(off, n))), sEq(app("select", newRow, "k"), app("select", oldRow, "k"))), app("select", newRow, "k")))
+		return nil
+	}
+	def("sort.SliceStable", modelEffect{allocates: true, nonDoc: true}, sliceSortModel)
+	def("sort.Slice", modelEffect{allocates: true, nonDoc: true}, sliceSortModel)
+
 	// ---- time -----------------------------------------------------------------------------------------
 	def("(time.Time).Equal", none, func(g *gen, st *state, c *ssa.CallCommon, a []string, in ssa.Instruction) []string {
 		return []string{sEq(app("instant", a[0]), app("instant", a[1]))}
@@ -391,4 +454,30 @@ func (g *gen) needSprintv() {
 		fmt.Sprintf("(forall ((x Iface)) (! (and (=> (or (= (i.typ x) %s) (= (i.typ x) %s)) (= (sprintv x) (itoa (i.val x)))) (=> (= (i.typ x) %s) (= (sprintv x) (unbox.String (i.val x))))) :pattern ((sprintv x))))", it, it64, st),
 		"(forall ((i Int)) (! (= (box.String (unbox.String i)) i) :pattern ((unbox.String i))))",
 	)
+}
+
+// pureLess: the function value is a closure made on the spot whose body stores nothing and calls nothing
+// (index expressions, comparisons and len only).
+func pureLess(v ssa.Value) bool {
+	mc, ok := v.(*ssa.MakeClosure)
+	if !ok {
+		return false
+	}
+	fn, ok := mc.Fn.(*ssa.Function)
+	if !ok {
+		return false
+	}
+	for _, b := range fn.Blocks {
+		for _, in := range b.Instrs {
+			switch x := in.(type) {
+			case *ssa.Store, *ssa.MapUpdate, *ssa.Send, *ssa.Go, *ssa.Defer, *ssa.MakeClosure, *ssa.RunDefers, *ssa.Select:
+				return false
+			case *ssa.Call:
+				if bi, ok := x.Call.Value.(*ssa.Builtin); !ok || (bi.Name() != "len" && bi.Name() != "cap") {
+					return false
+				}
+			}
+		}
+	}
+	return true
 }
